@@ -237,6 +237,9 @@ func (e *Engine) callFunc(st *state, fr *frame, in ssa.CallInstruction, fn *ssa.
 			if len(args) >= 2 {
 				buf = args[1]
 			}
+			if !knownNonNil(st, args[0]) && derefsReceiver(fn) {
+				e.addEvent(st, fr, &Event{Kind: EvPanicSite, Mode: "nilrecv", Args: []*Val{args[0]}, Callee: fn}, in)
+			}
 			return e.objEvent(st, fr, in, args[0], fn, fn.Name(), buf, sig.Recv().Type(), sig)
 		}
 		return e.inline(st, fr, in, fn, args, free)
@@ -690,3 +693,20 @@ func (e *Engine) opaqueResult(fn *ssa.Function, name string, args []*Val, id int
 }
 
 var _ = token.NoPos
+
+// derefsReceiver: does the method touch memory through its receiver?
+func derefsReceiver(fn *ssa.Function) bool {
+	if len(fn.Params) == 0 {
+		return false
+	}
+	refs := fn.Params[0].Referrers()
+	if refs == nil {
+		return false
+	}
+	for _, r := range *refs {
+		if _, ok := r.(*ssa.DebugRef); !ok {
+			return true
+		}
+	}
+	return false
+}
